@@ -51,6 +51,7 @@ class C18(Prop):
         "C18_alias_wellformed_partial", "D1_witness",
         "C18_wordReplace_spec", "C18_wordReplace_ident", "C18_ref_rewritten",
         "C18_no_match_unchanged", "C18_first_match", "nested_order_witness",
+        "C18_exact_map", "firstMatch_under", "nonInterferingB_iff", "sibling_witness",
         "C18_fullname_components", "C18_alias_invariant", "C18_lookup_preserved", "lookup_domain_witness",
         "D2_witness", "D3_witness", "D3b_witness",
     ]]
@@ -65,7 +66,7 @@ class C18(Prop):
         ("lib/python/pyflyby/_importdb.py", "ImportDB._from_data"),
         ("bin/transform-imports", None),
     ]
-    quick_cases = 4500
+    quick_cases = 3600
     thorough_cases = 60000
     quick_deadline_s = 55
     thorough_deadline_s = 600
@@ -216,6 +217,8 @@ class C18(Prop):
             return self._run_cli(case, obs)
         I2S.SourceToSourceFileImportsTransformation = Rec
         from pyflyby._importstmt import ImportFormatParams
+        if isinstance(params.get("align_imports"), list):
+            params["align_imports"] = tuple(params["align_imports"])      # JSON has no tuples
         fp = ImportFormatParams(**params) if params else None
         try:
             if mode == "canonical":
@@ -577,6 +580,9 @@ class C18(Prop):
             if obs["dbmap"] != [list(e) for e in self.effective_map(case)]:
                 return "ImportMap iteration order/content: impl=%r expected=%r" % (obs["dbmap"], self.effective_map(case))
         r = resps[0]
+        if case.get("odomain") and G.map_in_odomain(self.effective_map(case)) and not r.get("nonint"):
+            return "hypothesis NonInterfering of C18_exact_map does not hold for a map of the oracle's domain: %r" % (
+                self.effective_map(case),)
         if obs.get("blocks_out") is None:
             # failed before the block loop finished (parse errors): not modelled
             return None
@@ -688,6 +694,19 @@ class C18(Prop):
             return
         if case.get("prior_calls"):
             inc("with_prior_calls")
+        if "import *" in case["text"]:
+            inc("star_import")
+        if any(len(n) >= 25 for _, n in case["map"]):
+            inc("long_new_25plus")
+        ai = (case.get("params") or {}).get("align_imports")
+        if isinstance(ai, (list, int)) and not isinstance(ai, bool):
+            inc("integer_align_column")
+        es_ = case["map"]
+        if any(i != j and a[0].startswith(b[0]) and not G.under(a[0], b[0]) for i, a in enumerate(es_) for j, b in enumerate(es_)):
+            inc("sibling_char_prefix_olds")
+            if any(i != j and a[0].startswith(b[0]) and not G.under(a[0], b[0]) and a[1] == b[1] + a[0][len(b[0]):]
+                   for i, a in enumerate(es_) for j, b in enumerate(es_)):
+                inc("sibling_olds_parallel_news")
         if not case["text"].isascii() or not all((k + v).isascii() for k, v in case["map"]):
             inc("non_ascii_identifiers")
             if any(not o.split(".")[0].isascii() for o, _ in case["map"]):
